@@ -7,6 +7,7 @@ import (
 	"fmt"
 	"sort"
 	"strings"
+	"sync"
 
 	"github.com/invopop/gobl"
 	"github.com/invopop/gobl/cbc"
@@ -159,6 +160,12 @@ type docFacts struct {
 	isInvoice     bool
 }
 
+var (
+	factsMu    sync.Mutex
+	factsCache = map[string]docFacts{}
+)
+
+// factsOf is memoised by document bytes (the facts are a function of the bytes).
 func factsOf(env *gobl.Envelope) (f docFacts) {
 	defer func() {
 		if r := recover(); r != nil {
@@ -172,6 +179,21 @@ func factsOf(env *gobl.Envelope) (f docFacts) {
 	if err != nil {
 		return
 	}
+	key := H(db)
+	factsMu.Lock()
+	if c, ok := factsCache[key]; ok {
+		factsMu.Unlock()
+		return c
+	}
+	factsMu.Unlock()
+	defer func() {
+		factsMu.Lock()
+		if len(factsCache) > 20000 {
+			factsCache = map[string]docFacts{}
+		}
+		factsCache[key] = f
+		factsMu.Unlock()
+	}()
 	o := new(schema.Object)
 	if err := json.Unmarshal(db, o); err != nil {
 		return
